@@ -23,13 +23,17 @@ var Redirects = map[string][2]string{
 	"path/filepath": {"filepath", "verif.local/sim/simfilepath"},
 	"io/ioutil":     {"ioutil", "verif.local/sim/simioutil"},
 	"os/signal":     {"signal", "verif.local/sim/simsignal"},
+	"time":          {"time", "verif.local/sim/simtime"},
+	"math/rand":     {"rand", "verif.local/sim/simrand"},
+	"math/rand/v2":  {"rand", "verif.local/sim/simrandv2"},
 }
 
 // Unsupported std packages that would bypass the simulated environment.
 var Forbidden = map[string]string{
-	"os/exec":   "spawns real processes",
-	"net":       "real sockets",
-	"net/http":  "real sockets",
+	"os/exec":     "spawns real processes",
+	"net":         "real sockets",
+	"net/http":    "real sockets",
+	"crypto/rand": "randomness the simulator does not decide",
 }
 
 // Site describes one yield site.
